@@ -38,7 +38,7 @@ SITE = (5.0, -40.0)
 @st.composite
 def _cases(draw):
     t0 = draw(eop_instants(margin_days=3))
-    dt = draw(st.sampled_from([30, 60, 120]))
+    dt = draw(st.sampled_from([30, 60, 120, 225]))
     n = draw(st.integers(3, 6))
     model = draw(st.sampled_from(["two_body", "special_perturbations"]))
     nt = draw(st.integers(2, 4))
